@@ -447,6 +447,35 @@ def _run(ck: Check, probe) -> None:
             ck.violation("signing a document nested beyond what the serializer can handle failed and left a modified (truncated / partially written) file",
                          {"error": repr(exc)[:160], "file_len_before": len(deep_text), "file_len_after": len(after), "events": log}, "c18-too-deep-modified")
     del deep, cur
+    # signing from a worker thread (a build farm signs many indexes from a pool): all-or-nothing there too — it succeeds as in the main thread, or fails
+    # leaving the file as it was
+    import threading as _th
+    for name, doc_ in (("thread", {"packages": {"a": {"n": 1}, "b": {"n": 2}}, "packages.conda": {"c.conda": {}}}),):
+        content = gen.oracle_bytes(doc_)
+        put(fn, content)
+        with impl.quiet_stdout():
+            impl.signing.sign_all_in_repodata(fn, gen.key(1).seed.hex())
+        signed_ = get(fn)
+        put(fn, content)
+        box = []
+        def work():
+            try:
+                impl.signing.sign_all_in_repodata(fn, gen.key(1).seed.hex())
+                box.append(None)
+            except BaseException as e:  # noqa: BLE001
+                box.append(e)
+        with impl.quiet_stdout():
+            t_ = _th.Thread(target=work)
+            t_.start()
+            t_.join(120)
+        ck.evaluations += 1
+        ck.oracle_checks += 1
+        after_ = get(fn)
+        exc_ = box[0] if box else TimeoutError("did not finish")
+        ck.count("worker-thread:" + (type(exc_).__name__ if exc_ else "signed"))
+        if (exc_ is None and after_ != signed_) or (exc_ is not None and after_ != content):
+            ck.violation("in-place signing from a worker thread failed and left a modified (truncated) file, or reported success without the signed file",
+                         {"error": repr(exc_)[:200], "file_len_before": len(content), "file_len_after": len(after_), "fully_signed_len": len(signed_)}, "c18-worker-thread-modified")
     # leftovers of earlier (crashed) runs next to the file — temporary / partial / backup siblings holding other, well-formed content — change nothing:
     # a failing call leaves the target as it was, a successful one gives the result it gives without them
     sib_doc = gen.oracle_bytes({"packages": {"evil": {"n": 0}}, "signatures": {"evil": {}}})
